@@ -61,6 +61,10 @@ func (m *LexModel) aliases(st *State, class string) []string {
 	return out
 }
 
+// wordProbes: one representative of every kind of rune a word may continue with (Latin and Bangla letter, underscore,
+// ASCII and Bangla digit, a combining mark).
+var wordProbes = []int64{'a', 'ক', '_', '0', '9', '৫', 0x09be}
+
 var reCmp = regexp.MustCompile(`^\((\S+) (<|==) (\S+)\)$`)
 var reCall = regexp.MustCompile(`^(\w+)\((\S+)\)$`)
 
@@ -626,6 +630,14 @@ func (m *LexModel) Call(mc *Machine, st *State, call ssa.CallInstruction, callee
 		}
 		e := m.ev(in, "token", []string{tt.String(), lit}, "")
 		e.KV["adv"] = st.Mon["adv"]
+		// what the rune after the lexeme may still be (for the longest-piece rules): the probes consistent with
+		// everything the path has tested about the rune under the cursor
+		e.KV["at-end"] = st.Mon["end"]
+		var after []string
+		for _, v := range m.possible(st, m.aliases(st, "cur"), wordProbes) {
+			after = append(after, strconv.QuoteRune(rune(v)))
+		}
+		e.KV["after-may"] = strings.Join(after, "")
 		return []Outcome{{Result: Unk, Apply: func(s *State) {
 			s.Mon["tok"] = bump(s.Mon["tok"], 2)
 			m.Emit(s, e)
